@@ -21,6 +21,7 @@ typedef struct {
   size_t       size;
   void*        ptr;
   unsigned     calls;
+  int          fail; // every request is refused (X cases)
 } Track;
 
 static void* t_malloc(ZixAllocator* a, size_t size)
@@ -29,7 +30,7 @@ static void* t_malloc(ZixAllocator* a, size_t size)
   t->kind  = 'm';
   t->size  = size;
   t->calls++;
-  return t->ptr = malloc(size);
+  return t->ptr = t->fail ? NULL : malloc(size);
 }
 
 static void* t_calloc(ZixAllocator* a, size_t n, size_t size)
@@ -38,7 +39,7 @@ static void* t_calloc(ZixAllocator* a, size_t n, size_t size)
   t->kind  = 'c';
   t->size  = n * size;
   t->calls++;
-  return t->ptr = calloc(n, size);
+  return t->ptr = t->fail ? NULL : calloc(n, size);
 }
 
 static void* t_realloc(ZixAllocator* a, void* p, size_t size)
@@ -47,7 +48,7 @@ static void* t_realloc(ZixAllocator* a, void* p, size_t size)
   t->kind  = '?';
   t->size  = size;
   t->calls++;
-  return t->ptr = realloc(p, size);
+  return t->ptr = t->fail ? NULL : realloc(p, size);
 }
 
 static void t_free(ZixAllocator* a, void* p)
@@ -62,10 +63,10 @@ static void* t_aligned_alloc(ZixAllocator* a, size_t al, size_t size)
   t->kind  = '?';
   t->size  = size;
   t->calls++;
-  return t->ptr = aligned_alloc(al, size);
+  return t->ptr = t->fail ? NULL : aligned_alloc(al, size);
 }
 
-static Track track = {{t_malloc, t_calloc, t_realloc, t_free, t_aligned_alloc, t_free}, 0, 0, NULL, 0};
+static Track track = {{t_malloc, t_calloc, t_realloc, t_free, t_aligned_alloc, t_free}, 0, 0, NULL, 0, 0};
 
 static void track_reset(void)
 {
@@ -151,7 +152,7 @@ int main(int argc, char** argv)
   const int fork_mode = argc > 1 && !strcmp(argv[1], "--fork");
   char*     line      = NULL;
   size_t    cap       = 0;
-  char*     tok[4];
+  char*     tok0[5];
   while (vgetline(&line, &cap)) {
     if (fork_mode) {
       fflush(stdout);
@@ -168,8 +169,38 @@ int main(int argc, char** argv)
         _exit(97);
       }
     }
-    int n = vsplit(line, tok, 4);
+    int    n   = vsplit(line, tok0, 5);
+    char** tok = tok0;
     track_reset();
+    track.fail = 0;
+    if (n >= 2 && !strcmp(tok[0], "X")) {
+      // X <case>: the same call with an allocator that refuses every request: NULL, nothing written anywhere
+      track.fail = 1;
+      ++tok;
+      --n;
+      char* a = n > 1 ? arg_string(tok[1]) : NULL;
+      char* b = n > 2 ? arg_string(tok[2]) : NULL;
+      char* r = NULL;
+      const char* kind = "?";
+      if (n == 3 && !strcmp(tok[0], "J")) {
+        kind = "join";
+        r    = zix_path_join(&track.base, a, b);
+      } else if (n == 3 && !strcmp(tok[0], "R") && a && b) {
+        kind = "rel";
+        r    = zix_path_lexically_relative(&track.base, a, b);
+      } else if (n == 2 && !strcmp(tok[0], "P") && a) {
+        kind = "pref";
+        r    = zix_path_preferred(&track.base, a);
+      }
+      printf("%s=%s || calls=%u\n", kind, r ? "NONNULL" : "NULL", track.calls);
+      free(a);
+      free(b);
+      fflush(stdout);
+      if (fork_mode) {
+        _exit(0);
+      }
+      continue;
+    }
     if (n == 3 && !strcmp(tok[0], "J")) {
       char* a = arg_string(tok[1]);
       char* b = arg_string(tok[2]);
